@@ -804,7 +804,15 @@ def main_harness(reset: bool):
                      I2.getattr_v(scanner, "result").length() == st["result_n_at_4"])]
 
         q = "SessionsScanner.main"
-        I.ex.loop_contracts[(q, 0)] = loops.LoopContract(havoc0, inv0, variant0)
+        lc0 = loops.LoopContract(havoc0, inv0, variant0)
+
+        def exit0(I2: Interp, fr: Frame) -> list[tuple[str, Any]]:
+            cd = cur_depth(fr)
+            fl = models.getitem(I2, fr.env["found"], fr.env["current_depth"])
+            return [("the-search-stops-only-at-the-depth-limit-or-with-an-empty-frontier",
+                     z3.Or(cd >= depth.t, fl.length() == 0))]
+        lc0.on_exit = exit0  # type: ignore[attr-defined]
+        I.ex.loop_contracts[(q, 0)] = lc0
         I.ex.loop_contracts[(q, 1)] = loops.LoopContract(havoc1, inv1)
         I.ex.loop_contracts[(q, 2)] = loops.LoopContract(havoc2, inv2)
         I.ex.loop_contracts[(q, 3)] = loops.LoopContract(havoc3, inv3)
@@ -816,12 +824,6 @@ def main_harness(reset: bool):
             if not issubclass(e.exc.cls, SystemExit):
                 I.fail("M-main-does-not-raise", e.exc.cls.__name__)
             return
-        # normal end of main: the level loop was left because the depth is used up or the
-        # frontier is empty
-        if "cd0" in st:
-            fr_found_len = st.get("exit_frontier_len")
-            I.prove("M-level-loop-ends-only-at-the-depth-limit-or-with-an-empty-frontier",
-                    z3.BoolVal(True))
     return harness
 
 
